@@ -182,10 +182,13 @@ class RealFloat_from_rational(Contract):
             'value': t_val_q(trip(r)) == x,
             'sign': r._s == (x < 0),
             'flags_clear': flags_clear(r),
+            # encoding (helper for callers): n / 2^k  ->  c = |n|, exp = -k
+            'exp': r._exp == 1 - bl(x.denominator),
+            'c': r._c == abs(x.numerator),
         }
 
     def raises(x):
-        return {'ValueError': not is_pow2_int(x.denominator)}
+        return {'ValueError': not q_dyadic(x)}
 
 
 class RealFloat_as_rational(Contract):
@@ -276,3 +279,80 @@ class RealFloat_is_identical_to(Contract):
 
     def raises(self, other):
         return {}
+
+
+# ---------------------------------------------------------------------------
+# arithmetic (H1): D(a o b) = D(a) o D(b), any encoding, any operand type
+
+class RealFloat___add__(Contract):
+    target = 'fpy2.number.number.reals:RealFloat.__add__'
+    params = {'self': 'RealFloat', 'other': 'RealFloat | int | float | Fraction'}
+    returns = 'RealFloat | float'
+    properties = ['C05']
+    split = ['other']
+
+    def post(self, other, result):
+        r = result
+        fin = finite_operand(other)
+        out = {}
+        if cls_name(other) == 'float':
+            # NaN / infinity absorb the finite addend (IEEE 754 6.1, 6.2)
+            out.update({
+                'nan': implies(f64_isnan(other), cls_name(r) == 'float' and f64_isnan(r)),
+                'inf': implies(f64_isinf(other), cls_name(r) == 'float' and f64_isinf(r) and f64_sign(r) == f64_sign(other)),
+                'finite_type': implies(fin, cls_name(r) == 'RealFloat'),
+            })
+        if cls_name(r) == 'RealFloat':
+            a = trip(self)
+            b = trip(other)
+            out.update({
+                'fresh': not same_obj(r, self) and not same_obj(r, other),
+                'wf': r._c >= 0,
+                # the exact sum
+                'sum': implies(fin, t_is_sum(trip(r), a, b)),
+                # IEEE 754 6.3: an exact zero sum is -0 only if both operands are -0
+                'zero_sign': implies(fin and r._c == 0, r._s == (a[2] == 0 and b[2] == 0 and a[0] and b[0])),
+                'flags_clear': implies(self._c != 0 and b[2] != 0, flags_clear(r)),
+            })
+        return out
+
+    def raises(self, other):
+        return {'ValueError': (not q_dyadic(other)) if cls_name(other) == 'Fraction' else False}
+
+
+class RealFloat___mul__(Contract):
+    target = 'fpy2.number.number.reals:RealFloat.__mul__'
+    params = {'self': 'RealFloat', 'other': 'RealFloat | int | float | Fraction'}
+    returns = 'RealFloat | float'
+    properties = ['C05']
+    split = ['other']
+
+    def post(self, other, result):
+        r = result
+        fin = finite_operand(other)
+        out = {}
+        if cls_name(other) == 'float':
+            out.update({
+                'nan': implies(f64_isnan(other), cls_name(r) == 'float' and f64_isnan(r)),
+                # IEEE 754 7.2: 0 x inf is invalid -> NaN
+                'zero_times_inf': implies(f64_isinf(other) and self._c == 0, cls_name(r) == 'float' and f64_isnan(r)),
+                'inf': implies(f64_isinf(other) and self._c != 0,
+                               cls_name(r) == 'float' and f64_isinf(r) and f64_sign(r) == xor(self._s, f64_sign(other))),
+                'finite_type': implies(fin, cls_name(r) == 'RealFloat'),
+            })
+        if cls_name(r) == 'RealFloat':
+            a = trip(self)
+            b = trip(other)
+            out.update({
+                'fresh': not same_obj(r, self) and not same_obj(r, other),
+                'wf': r._c >= 0,
+                # the exact product
+                'prod': implies(fin, t_is_prod(trip(r), a, b)),
+                # IEEE 754 6.3: the sign of a product is the XOR of the signs, zeros included
+                'sign': implies(fin, r._s == xor(a[0], b[0])),
+                'flags_clear': flags_clear(r),
+            })
+        return out
+
+    def raises(self, other):
+        return {'ValueError': (not q_dyadic(other)) if cls_name(other) == 'Fraction' else False}
